@@ -90,6 +90,12 @@ class InstanceLayer:
         return '<layer %s.%s>' % (self.__module__, self.__name__)
 
 
+class FalsyLayer(InstanceLayer):
+    """An instance layer that is falsy (a resource container that is empty at collection time)."""
+    def __len__(self):
+        return 0
+
+
 def snapshot():
     """Canonical view of the interpreter-global state a run may touch (C18)."""
     import gc
@@ -117,6 +123,29 @@ def snapshot():
 
 
 _ORIG_SETTRACE = sys.settrace
+
+
+def _meddle(actions):
+    """A test that itself changes interpreter-global state the runner manages or relies on (hostile but legal)."""
+    import gc
+    import warnings
+    for a in actions:
+        if a == 'syspath_remove':
+            # sandboxing sys.path: drop every entry that is not part of the interpreter installation
+            keep = [q for q in sys.path if q.startswith(sys.prefix) or q.startswith(sys.base_prefix) or 'boot' in q or q.endswith('/src') or q.endswith('harness')]
+            sys.path[:] = keep
+        elif a == 'gc_threshold':
+            gc.set_threshold(123, 4, 5)
+        elif a == 'gc_debug':
+            gc.set_debug(gc.DEBUG_UNCOLLECTABLE | gc.DEBUG_SAVEALL)
+        elif a == 'warn_reset':
+            warnings.resetwarnings()
+        elif a == 'chdir':
+            os.chdir('/')
+        elif a == 'settrace_none':
+            sys.settrace(None)
+        elif a == 'setprofile_none':
+            sys.setprofile(None)
 _held = []          # threads parked by tests: (event, thread)
 
 
@@ -184,7 +213,7 @@ def build(modname):
             except TypeError:
                 obj = None
         if obj is None:
-            obj = InstanceLayer(L['name'], modname, bases)
+            obj = (FalsyLayer if L.get('kind') == 'falsy' else InstanceLayer)(L['name'], modname, bases)
             for k, v in d.items():
                 setattr(obj, k, v)
         layers.append(obj)
@@ -226,6 +255,8 @@ def build(modname):
                 emit('t_body', tidx)
                 if T.get('probe'):
                     emit('probe', tidx, snapshot())
+                if T.get('meddle'):
+                    _meddle(T['meddle'])
                 _writes(T, 'body')
                 for spec in T.get('threads', []):
                     _start_thread(tidx, spec)
